@@ -513,6 +513,8 @@ def gen_sweep(rng, with_dask, order):
     bl = sorted(rng.sample(pool, n))
     if bl[0] > 8 and rng.random() < 0.6:
         bl[0] = rng.choice([4, 6, 8])  # the narrowest type first / last
+    if rng.random() < 0.35:
+        bl[-1] = rng.choice([54, 60, 64])  # codes that a float cannot hold
     if order == "decreasing":
         bl = bl[::-1]
     elif order == "mixed":
